@@ -8,8 +8,10 @@ def grantsL (ws : List Waiter) : Nat := ws.countP (fun w => w.st = .granted)
 /-- phases in which the pool slot must still be held -/
 def NYR (ph : Phase) : Bool := ph == .created || ph == .inWorker || ph == .inCancelCb
 
-def SlotOK (cap : Nat) (p : Pool) : Prop :=
-  ∃ v, p.sem.value = .fin v ∧ v + heldL p.tasks + grantsL p.sem.waiters = cap
+def SlotOK (cap : Cap) (p : Pool) : Prop :=
+  match cap with
+  | .fin n => ∃ v, p.sem.value = .fin v ∧ v + heldL p.tasks + grantsL p.sem.waiters = n
+  | .inf => p.sem.value = .inf ∧ p.sem.waiters = []
 
 def PhaseOK (p : Pool) : Prop :=
   ∀ (t : Nat) (tk : PTask), p.tasks[t]? = some tk → NYR tk.phase = true → tk.released = false
@@ -24,7 +26,7 @@ structure RegOK (p : Pool) : Prop where
   cpl : p.lost = false → ∀ (t : Nat) (tk : PTask), p.tasks[t]? = some tk → tk.released = false →
           t ∈ p.running ∨ t ∈ p.cancelledR
 
-structure Good (cap : Nat) (p : Pool) : Prop where
+structure Good (cap : Cap) (p : Pool) : Prop where
   slot : SlotOK cap p
   phase : PhaseOK p
   reg : RegOK p
@@ -38,6 +40,7 @@ structure Tame (p q : Pool) : Prop where
   can : q.cancelledR = p.cancelledR
   fin : q.ended = p.ended
   lost : q.lost = p.lost
+  wnil : p.sem.waiters = [] → q.sem.waiters = []
   pt : ∀ (t : Nat) (tk' : PTask), q.tasks[t]? = some tk' →
         ∃ tk : PTask, p.tasks[t]? = some tk ∧ tk'.released = tk.released ∧ (tk'.phase = tk.phase ∨ NYR tk'.phase = false)
 
@@ -98,11 +101,11 @@ theorem getElem?_modify_some {α} (l : List α) (t i : Nat) (f : α → α) (y :
 /-! ### Tame: algebra -/
 
 theorem Tame.refl (p : Pool) : Tame p p :=
-  ⟨rfl, rfl, rfl, rfl, rfl, rfl, rfl, fun _ tk' h => ⟨tk', h, rfl, Or.inl rfl⟩⟩
+  ⟨rfl, rfl, rfl, rfl, rfl, rfl, rfl, fun h => h, fun _ tk' h => ⟨tk', h, rfl, Or.inl rfl⟩⟩
 
 theorem Tame.trans {p q r : Pool} (h1 : Tame p q) (h2 : Tame q r) : Tame p r := by
   refine ⟨h2.val.trans h1.val, h2.grants.trans h1.grants, h2.len.trans h1.len, h2.run.trans h1.run,
-    h2.can.trans h1.can, h2.fin.trans h1.fin, h2.lost.trans h1.lost, ?_⟩
+    h2.can.trans h1.can, h2.fin.trans h1.fin, h2.lost.trans h1.lost, fun h => h2.wnil (h1.wnil h), ?_⟩
   intro t tk'' h
   obtain ⟨tk', hq, hr', hp'⟩ := h2.pt t tk'' h
   obtain ⟨tk, hp, hr, hph⟩ := h1.pt t tk' hq
@@ -117,9 +120,12 @@ theorem Tame.held {p q : Pool} (h : Tame p q) : heldL q.tasks = heldL p.tasks :=
   heldL_eq_of_pointwise _ _ h.len (fun t tk' ht => by
     obtain ⟨tk, a, b, _⟩ := h.pt t tk' ht; exact ⟨tk, a, b⟩)
 
-theorem Tame.slot {cap : Nat} {p q : Pool} (h : Tame p q) (hs : SlotOK cap p) : SlotOK cap q := by
-  obtain ⟨v, hv, hsum⟩ := hs
-  exact ⟨v, by rw [h.val]; exact hv, by rw [h.held, h.grants]; exact hsum⟩
+theorem Tame.slot {cap : Cap} {p q : Pool} (h : Tame p q) (hs : SlotOK cap p) : SlotOK cap q := by
+  cases cap with
+  | fin n =>
+    obtain ⟨v, hv, hsum⟩ := hs
+    exact ⟨v, by rw [h.val]; exact hv, by rw [h.held, h.grants]; exact hsum⟩
+  | inf => exact ⟨h.val.trans hs.1, h.wnil hs.2⟩
 
 theorem Tame.phase {p q : Pool} (h : Tame p q) (hp : PhaseOK p) : PhaseOK q := by
   intro t tk' ht hn
@@ -166,7 +172,7 @@ theorem Tame.reg {p q : Pool} (h : Tame p q) (hr : RegOK p) : RegOK q := by
     rw [h.run, h.can]
     exact hr.cpl hl t tk a (b ▸ hrel)
 
-theorem Tame.good {cap : Nat} {p q : Pool} (h : Tame p q) (hg : Good cap p) : Good cap q :=
+theorem Tame.good {cap : Cap} {p q : Pool} (h : Tame p q) (hg : Good cap p) : Good cap q :=
   ⟨h.slot hg.slot, h.phase hg.phase, h.reg hg.reg⟩
 
 /-- released flag of a task is preserved along a tame change -/
@@ -181,7 +187,7 @@ theorem Tame.released {p q : Pool} (h : Tame p q) (t : Nat) (tk : PTask) (hp : p
 theorem tame_of_eq (p q : Pool) (hs : q.sem = p.sem) (ht : q.tasks = p.tasks)
     (h1 : q.running = p.running := by rfl) (h2 : q.cancelledR = p.cancelledR := by rfl)
     (h3 : q.ended = p.ended := by rfl) (h4 : q.lost = p.lost := by rfl) : Tame p q := by
-  refine ⟨by rw [hs], by rw [hs], by rw [ht], h1, h2, h3, h4, ?_⟩
+  refine ⟨by rw [hs], by rw [hs], by rw [ht], h1, h2, h3, h4, by rw [hs]; exact fun h => h, ?_⟩
   intro t tk' h; rw [ht] at h; exact ⟨tk', h, rfl, Or.inl rfl⟩
 
 namespace Pool
@@ -207,7 +213,7 @@ namespace Pool
 theorem tame_modTask (p : Pool) (t : Nat) (f : PTask → PTask)
     (hr : ∀ x, (f x).released = x.released) (hp : ∀ x, (f x).phase = x.phase ∨ NYR (f x).phase = false) :
     Tame p (p.modTask t f) := by
-  refine ⟨rfl, rfl, by simp [modTask], rfl, rfl, rfl, rfl, ?_⟩
+  refine ⟨rfl, rfl, by simp [modTask], rfl, rfl, rfl, rfl, fun h => h, ?_⟩
   intro i tk' h
   obtain ⟨x, hx, rfl⟩ := getElem?_modify_some p.tasks t i f tk' h
   refine ⟨x, hx, ?_, ?_⟩ <;> split <;> simp_all
@@ -277,7 +283,8 @@ theorem grantsL_cancelWaiterL (m : Nat) (ws : List Waiter) : grantsL (cancelWait
 
 theorem tame_cancelPoolWaiter (p : Pool) (m : Nat) :
     Tame p ({ p with sem := { p.sem with waiters := cancelWaiterL m p.sem.waiters } } : Pool) :=
-  ⟨rfl, grantsL_cancelWaiterL m _, rfl, rfl, rfl, rfl, rfl, fun _ tk' h => ⟨tk', h, rfl, Or.inl rfl⟩⟩
+  ⟨rfl, grantsL_cancelWaiterL m _, rfl, rfl, rfl, rfl, rfl, fun h => by simp [h, cancelWaiterL],
+   fun _ tk' h => ⟨tk', h, rfl, Or.inl rfl⟩⟩
 
 theorem tame_metaCancel (p : Pool) (m) : Tame p (p.metaCancel m) := by
   unfold metaCancel
